@@ -23,7 +23,7 @@ from sa.model import Func, Repo
 from sa.norm import T
 from sa.report import Check
 
-from .common import callee_name, has_fact, is_mutation, kwarg, mutation_sites, rewriter_param
+from .common import expand_per_alt, expand_with_loops, callee_name, has_fact, is_mutation, kwarg, mutation_sites, rewriter_param
 
 PASS = "snaxc/transforms/snax_copy_to_dma.py"
 HEADER = "runtime/include/snax_rt.h"
@@ -47,6 +47,10 @@ def run(repo: Repo, chk: Check) -> None:
     units(repo, chk)
     guards(repo, chk)
     nest(repo, chk)
+    metadata_stride(repo, chk)
+    from . import c10 as _c10
+
+    _c10.lccb(repo, chk, rule="C05.lccb-built")
     seed_extent(repo, chk)
     lccb_static(repo, chk)
     layout_offset(repo, chk)
@@ -809,6 +813,50 @@ def seed_extent(repo: Repo, chk: Check) -> None:
                    facts=[ast.unparse(cone)[:400]])
     if n == 0:
         raise AnalysisError(f"{f.where}: no selected-stride lookup `{bp}[<key>]` found")
+
+
+# --------------------------------------------------------------------------- run-time strides belong to the innermost tile level
+def metadata_stride(repo: Repo, chk: Check) -> None:
+    chk.rule(
+        "C05.metadata-stride",
+        "get_step_ops: the run-time stride of dimension d read from extract_strided_metadata is the step of the INNERMOST tile level of "
+        "d only (key (d, depth(d) - 1)); outer levels of a reconstructed layout have step = stride * inner bounds and must not receive it",
+        floor=1,
+    )
+    f = repo.func("snaxc/dialects/tsl.py", "TiledStridedLayoutAttr.get_step_ops")
+    chk.analysed(f.key)
+    fl = Flow(f, repo)
+    n = 0
+    for s in fl.stmts(ast.Assign):
+        t = s.node.targets[0]
+        if not (s.reachable and isinstance(t, ast.Subscript)):
+            continue
+        # direct data flow only (locals expanded per path alternative): a value looked up again from the mapping is not a metadata read
+        hits = [h for x_ in expand_per_alt(s, s.node.value) for h in norm.find(T("$m.strides[$d]"), x_)]
+        if not hits:
+            continue
+        n += 1
+        key = expand_with_loops(s, t.slice)
+        key = norm.primary(key)
+        ok = False
+        detail = f"key {ast.unparse(key)[:80]}"
+        if isinstance(key, ast.Tuple) and len(key.elts) == 2:
+            d, k = key.elts
+            same_dim = any(ast.unparse(norm.primary(s.expand(h[1]["d"]))) == ast.unparse(norm.primary(s.expand(t.slice.elts[0]))) if isinstance(t.slice, ast.Tuple) else False
+                           for h in hits)
+            d_txt = ast.unparse(t.slice.elts[0]) if isinstance(t.slice, ast.Tuple) else ast.unparse(d)
+            k_raw = t.slice.elts[1] if isinstance(t.slice, ast.Tuple) else k
+            last = norm.any_match(["$t.tstrides[$d].depth() - 1", "len($t.tstrides[$d].strides) - 1", "$t.tstrides[$d].depth() + -1"], s.expand(k_raw), {"d": d_txt}) is not None
+            by_fact = bool(has_fact(s, ["$k == $t.tstrides[$d].depth() - 1", "$k + 1 == $t.tstrides[$d].depth()", "$k == len($t.tstrides[$d].strides) - 1"],
+                                    {"k": k_raw, "d": d_txt}))
+            ok = same_dim and (last or by_fact)
+            detail = f"key ({d_txt}, {ast.unparse(s.expand(k_raw))[:60]}); same dimension as the metadata stride: {same_dim}; innermost level: {last or by_fact}"
+        chk.result(ok, "C05.metadata-stride", f"snaxc/dialects/tsl.py:get_step_ops:metadata#{n}", s.where(),
+                   "the run-time stride of dimension d becomes the step of (d, innermost level)",
+                   f"the run-time stride read from the strided metadata is stored under {detail}: an outer tile level then steps by the element pitch instead of "
+                   "pitch * inner bounds (a strided<[?, 1]> source copied into 4x4 tiles lands rows in the wrong tiles)")
+    if n == 0:
+        raise AnalysisError(f"{f.where}: no store of a metadata stride into the step mapping found")
 
 
 # --------------------------------------------------------------------------- the common contiguous block ends at a dynamic stride
